@@ -193,6 +193,7 @@ class Generated:
         self.inserted = {}    # name of an inserted (generated) fn -> dict(tags, finding, desc)
         self.lost = []        # (description, tags): anchors of contract text that no longer exist in the source
         self.incomplete = {}  # fnkey -> [reasons]: functions whose proof text is structurally incomplete on this tree
+        self.incomplete_tags = {}  # fnkey -> None (every property) | set of property ids the incompleteness concerns
         self.inlined = []     # R17: 'helper fnkey -> caller fnkey' for every inlined call of a helper the contracts do not know
 
     def count(self, rule, n=1):
@@ -232,6 +233,7 @@ class Splicer:
         if getattr(unit, 'name', None) and os.path.exists(bp) and not getattr(unit, 'no_baseline', False):
             self.baseline = json.load(open(bp))
         self.newfns = {}      # file -> {(qual, name): (record, simple)}
+        self.new_names = set()  # names of all functions of the unit that the contracts do not know
 
     # ------------------------------------------------------------ source loading
     def module_file(self, parent_file, modname):
@@ -400,23 +402,8 @@ class Splicer:
         def in_dropped(s):
             return any(a <= s < b for a, b in dropped_spans)
 
-        self.newfns[f] = {}
-        if self.baseline is not None:
-            for r in recs:
-                if r['rec'] != 'fn' or r['cfg_test'] or in_dropped(r['item'][0]):
-                    continue
-                if '%s:%s' % (f, r['path']) in self.baseline or (f, r['path']) in self.u.fns:
-                    continue
-                # a function the contracts do not know.  SIMPLE (R17 can inline its calls): straight-line body without return / ? /
-                # loops / nested fns / generics, not a trait-impl method, not self-recursive, no by-value self
-                simple = bool(r['body']) and r.get('returns', 1) == 0 and r.get('tries', 1) == 0 and not r['loops'] and r['nested_fns'] == 0 \
-                    and not r.get('generic', True) and ' for ' not in r['qual'] \
-                    and not any(p.get('recv') == 'self' for p in r['params']) and not any(c['name'] == r['name'] for c in r.get('calls', [])) \
-                    and all('recv' in p or 'ty' in p for p in r['params'])
-                k = (r['qual'], r['name'])
-                if k in self.newfns[f]:
-                    simple = False
-                self.newfns[f][k] = (r, simple)
+        if f not in self.newfns:
+            self.find_new_fns(f)
         for r in recs:
             if r['rec'] != 'fn' or r['cfg_test']:
                 continue
@@ -444,6 +431,28 @@ class Splicer:
         if getattr(self, 'lifts', {}).get(f):
             pieces = self.apply_lifts(f, pieces)
         return pieces
+
+    def find_new_fns(self, f):
+        """functions of file f that the contracts of this unit do not know (not in the baseline, no contract)"""
+        self.newfns[f] = {}
+        if self.baseline is None:
+            return
+        for r in self.anch[f]:
+            if r['rec'] != 'fn' or r['cfg_test']:
+                continue
+            if '%s:%s' % (f, r['path']) in self.baseline or (f, r['path']) in self.u.fns:
+                continue
+            # SIMPLE (R17 can inline its calls): straight-line body without return / ? / loops / nested fns / generics, not a
+            # trait-impl method, not self-recursive, no by-value self
+            simple = bool(r['body']) and r.get('returns', 1) == 0 and r.get('tries', 1) == 0 and not r['loops'] and r['nested_fns'] == 0 \
+                and not r.get('generic', True) and ' for ' not in r['qual'] \
+                and not any(p.get('recv') == 'self' for p in r['params']) and not any(c['name'] == r['name'] for c in r.get('calls', [])) \
+                and all('recv' in p or 'ty' in p for p in r['params'])
+            k = (r['qual'], r['name'])
+            if k in self.newfns[f]:
+                simple = False
+            self.newfns[f][k] = (r, simple)
+            self.new_names.add(r['name'])
 
     def process_fn(self, f, r, data, ins, dele):
         u = self.u
@@ -582,17 +591,23 @@ class Splicer:
             self.rewrite_body(f, r, data, ins, dele, fc)
         self.fn_range_marks(f, r, ins, fnkey)
 
-    def lose(self, desc, tags, fn=None):
+    def lose(self, desc, tags, fn=None, scope='all'):
+        """scope='all': the lost anchor carried a CONTRACT for a part of the function (loop, closure, lifted or outlined code): nothing
+        in the function can be decided without it.  scope='tags': it carried ghost text of one property's argument (a proof hint, an
+        inserted assertion): only that property's obligations in the function are affected."""
         self.g.lost.append((desc, sorted(tags)))
         if fn:
-            self.incomplete(fn, 'lost anchor: ' + desc)
+            self.incomplete(fn, 'lost anchor: ' + desc, tags=(sorted(tags) if scope == 'tags' else None))
 
-    def incomplete(self, fnkey, why):
+    def incomplete(self, fnkey, why, tags=None):
         """the proof text of this function is structurally incomplete on this tree (a contract anchor vanished, it calls or is a
         function the contracts do not know, its loops changed): a failed obligation inside it means 'needs contract', not 'violation'"""
         self.g.incomplete.setdefault(fnkey, [])
         if why not in self.g.incomplete[fnkey]:
             self.g.incomplete[fnkey].append(why)
+        # which properties the incompleteness concerns: None = all
+        cur = self.g.incomplete_tags.get(fnkey, set())
+        self.g.incomplete_tags[fnkey] = None if (tags is None or cur is None) else (set(cur) | set(tags))
 
     def toplevel_start(self, f, off):
         """start of the outermost item of file f that contains byte offset off"""
@@ -726,8 +741,16 @@ class Splicer:
         indent = '            '
         # R17: calls of helpers the contracts do not know
         for c in r.get('calls', []):
+            if c['form'] == 'method':
+                # `x.h(..)` on a receiver other than self: not inlinable; if some function the contracts do not know has that name,
+                # this body cannot be decided by the contracts
+                if c['name'] in self.new_names:
+                    self.incomplete(fnkey, 'calls a method named %s; a function of that name is unknown to the contracts' % c['name'])
+                continue
             tgt = self.newfns.get(f, {}).get((r['qual'] if c['form'] != 'path' else '', c['name']))
             if not tgt:
+                if c['name'] in self.new_names and not any((r['qual'] if c['form'] != 'path' else '', c['name']) in t for t in [self.newfns.get(f, {})]):
+                    self.incomplete(fnkey, 'calls %s; a function of that name (in another file of the unit) is unknown to the contracts' % c['name'])
                 continue
             hr, simple = tgt
             hkey = '%s:%s' % (f, hr['path'])
@@ -931,7 +954,7 @@ class Splicer:
                 after = 'after' in bp[2:]
                 ms = list(re.finditer(rx, txt))
                 if not ms and 'optional' not in bp[2:]:
-                    self.lose('proof-hint site %r in %s' % (rx, fnkey), tags, fn=fnkey)
+                    self.lose('proof-hint site %r in %s' % (rx, fnkey), tags, fn=fnkey, scope='tags')
                 htags = [x[5:] for x in bp[2:] if isinstance(x, str) and x.startswith('tags=')]
                 for mm in ms:
                     at = mm.end() if after else mm.start()
@@ -977,7 +1000,7 @@ class Splicer:
             for (rx, template, wtags, wname) in getattr(fc, 'rebind', []):
                 ms = list(re.finditer(rx, txt))
                 if len(ms) != 1:
-                    self.lose('call %r in %s (%s; %d matches)' % (rx, fnkey, wname, len(ms)), set(wtags.split()), fn=fnkey)
+                    self.lose('call %r in %s (%s; %d matches)' % (rx, fnkey, wname, len(ms)), set(wtags.split()), fn=fnkey, scope='tags')
                     continue
                 mm = ms[0]
                 m = self.marker('assert', fnkey, f, 0, set(wtags.split()), Clause(template, wtags, name=wname))
@@ -988,7 +1011,7 @@ class Splicer:
             for (rx, text, wtags, wname) in getattr(fc, 'wrap_exprs', []):
                 ms = list(re.finditer(rx, txt))
                 if not ms:
-                    self.lose('expression %r in %s (%s)' % (rx, fnkey, wname), set(wtags.split()), fn=fnkey)
+                    self.lose('expression %r in %s (%s)' % (rx, fnkey, wname), set(wtags.split()), fn=fnkey, scope='tags')
                 for mm in ms:
                     m = self.marker('assert', fnkey, f, 0, set(wtags.split()), Clause(text, wtags, name=wname))
                     wtext = text
@@ -1014,7 +1037,7 @@ class Splicer:
                         dele(s, s + len(old.encode()), 'R11', new)
                         n += 1
                 if n == 0:
-                    self.lose('binder %s in %s' % (old, fnkey), tags, fn=fnkey)
+                    self.lose('binder %s in %s' % (old, fnkey), tags, fn=fnkey, scope='tags')
 
     # ------------------------------------------------------------ assemble
     def build(self):
@@ -1022,6 +1045,8 @@ class Splicer:
         g = self.g
         self.hoisted = []
         self.discover()
+        for f0 in list(self.anch):
+            self.find_new_fns(f0)
         for gen_fn in u.generators:
             gen_fn(self)
         root_pieces = self.process_file(u.root_file) if u.root_file else [('ins', getattr(u, 'root_text', ''), {'glue': 'synthetic root'})]
